@@ -199,4 +199,5 @@ let job_frag (job : Sx.t) : string =
   let imp = Fragment.in_proved_fragment lfuel p in
   let k = match FreeLower.klower_main lfuel p with
     | Util.Ok _ -> "ok" | Util.Crash -> "crash" | Util.OutOfFuel -> "nofuel" in
-  Printf.sprintf "(imp %d) (kfree %s)" (if imp then 1 else 0) k
+  let safe = TSemSafe.safe_program_ok p in
+  Printf.sprintf "(imp %d) (kfree %s) (safe %d)" (if imp then 1 else 0) k (if safe then 1 else 0)
